@@ -340,6 +340,15 @@ def run(argv):
     if obs_range is not None and len(obs_range) != 2:
         verif.util.error("-obsrange <values> must have exactly 2 values")
 
+    if xlim is not None and len(xlim) != 2:
+        verif.util.error("-xlim <values> must have exactly 2 values")
+
+    if ylim is not None and len(ylim) != 2:
+        verif.util.error("-ylim <values> must have exactly 2 values")
+
+    if clim is not None and len(clim) != 2:
+        verif.util.error("-clim <values> must have exactly 2 values")
+
     if dim_agg_length is not None and dim_agg_length <= 0:
         verif.util.error("-T <value> must be greater than 0")
 
